@@ -20,6 +20,33 @@ pub type Rec<'src, I, E> = Recursive<Indirect<'src, 'src, I, Val, Ex<E>>>;
 pub trait HInput<'src>: ValueInput<'src, Token = char, Span = Sp> + Sized + 'src {
     /// `p.to_slice()` mapped to an offset range relative to `base` (address of the caller's buffer)
     fn to_slice<E: HErr<'src, Self>>(p: BP<'src, Self, E>, base: usize) -> BP<'src, Self, E>;
+    /// `any_ref()` where the kind implements `BorrowInput`, `any()` otherwise
+    fn any_ref_p<E: HErr<'src, Self>>() -> BP<'src, Self, E> {
+        any().map(|c: char| Val::Tok(c as u32)).boxed()
+    }
+    /// `select_ref!` where the kind implements `BorrowInput`, `select!` otherwise
+    fn select_ref_p<E: HErr<'src, Self>>(cs: Vec<char>) -> BP<'src, Self, E> {
+        select(move |c: char, _| if cs.contains(&c) { Some(Val::tag(7, Val::Tok(c as u32))) } else { None }).boxed()
+    }
+}
+
+/// the by-reference primitives, for input kinds that implement `BorrowInput`
+macro_rules! borrow_prims {
+    () => {
+        fn any_ref_p<E: HErr<'src, Self>>() -> BP<'src, Self, E> {
+            chumsky::primitive::any_ref().map(|c: &'src char| Val::Tok(*c as u32)).boxed()
+        }
+        fn select_ref_p<E: HErr<'src, Self>>(cs: Vec<char>) -> BP<'src, Self, E> {
+            chumsky::primitive::select_ref(move |c: &'src char, _| {
+                if cs.contains(c) {
+                    Some(Val::tag(7, Val::Tok(*c as u32)))
+                } else {
+                    None
+                }
+            })
+            .boxed()
+        }
+    };
 }
 
 impl<'src> HInput<'src> for &'src str {
@@ -35,6 +62,7 @@ impl<'src> HInput<'src> for &'src str {
 }
 
 impl<'src> HInput<'src> for &'src [char] {
+    borrow_prims!();
     fn to_slice<E: HErr<'src, Self>>(p: BP<'src, Self, E>, base: usize) -> BP<'src, Self, E> {
         p.to_slice()
             .map(move |s: &'src [char]| {
@@ -61,6 +89,7 @@ pub fn id_pair(t: (char, Sp)) -> (char, Sp) {
 }
 
 impl<'src> HInput<'src> for MappedSlice<'src> {
+    borrow_prims!();
     fn to_slice<E: HErr<'src, Self>>(_p: BP<'src, Self, E>, _base: usize) -> BP<'src, Self, E> {
         panic!("harness: to_slice unsupported for this input kind")
     }
@@ -119,9 +148,15 @@ macro_rules! no_slice_input {
 no_slice_input!(CountStream);
 no_slice_input!(BoxedCharStream);
 no_slice_input!(MappedIo);
-no_slice_input!(MSpanSlice<'src>);
+impl<'src> HInput<'src> for MSpanSlice<'src> {
+    borrow_prims!();
+    fn to_slice<E: HErr<'src, Self>>(_p: BP<'src, Self, E>, _base: usize) -> BP<'src, Self, E> {
+        panic!("harness: to_slice unsupported for this input kind")
+    }
+}
 
 impl<'src> HInput<'src> for WithCtx<'src> {
+    borrow_prims!();
     fn to_slice<E: HErr<'src, Self>>(p: BP<'src, Self, E>, base: usize) -> BP<'src, Self, E> {
         p.to_slice()
             .map(move |s: &'src [char]| {
@@ -134,6 +169,7 @@ impl<'src> HInput<'src> for WithCtx<'src> {
 }
 
 impl<'src, const N: usize> HInput<'src> for &'src [char; N] {
+    borrow_prims!();
     fn to_slice<E: HErr<'src, Self>>(p: BP<'src, Self, E>, base: usize) -> BP<'src, Self, E> {
         p.to_slice()
             .map(move |s: &'src [char]| {
@@ -246,6 +282,8 @@ pub fn build<'src, I: HInput<'src>, E: HErr<'src, I>>(g: &G, cx: &Cx<'src, I, E>
             })
             .boxed()
         }
+        G::AnyRef => I::any_ref_p::<E>(),
+        G::SelectRef(ts) => I::select_ref_p::<E>(chars(ts)),
         G::CNext(msg) => {
             let msg = *msg;
             custom(move |inp| {
